@@ -95,60 +95,62 @@ def run_case(case):
                     A = np.array(bits, dtype=bool)
                     at = {"base": xb.tolist(), "y0": y.tolist(), "x": xe.tolist(), "y": ye.tolist(), "active": [int(b) for b in bits],
                           "rho": rho, "dt": dt}
-                    Jm = O.implicit_jac(T, R0, rho, dt, A)      # derivatives at the base iterate
-                    Fv = O.implicit_value(T, (xb, y), Re, rho, dt, A)
-                    cond = np.linalg.cond(Jm)
-                    if not np.isfinite(cond) or cond > 1e6:
-                        stats["illcond"] += 1
-                        continue
-                    s = np.linalg.solve(Jm, Fv)
-                    xn = np.clip(xe - s[: T.n], T.var_lb, T.var_ub)
-                    yn = ye - s[T.n:]
-                    scale = max(1.0, float(np.max(np.abs(s))), float(np.max(np.abs(xn))), float(np.max(np.abs(yn), initial=0)))
-                    nontriv = A.any() or (m > 0 and not prob.jac_const and Re.cons_violation > 1e-3)
-                    if nontriv:
-                        keys.append(f"{spec['tag']}|{bi}{yi}{ei}|{at['active']}|{rho}|{dt}")
-                    for ss, ls in SOLVERS:
-                        params, P, ev = P_of(ss, ls)
-                        it0 = Iterate(P, params, xb, y, ev)
-                        ite = it0 if ei == 0 else Iterate(P, params, xe, ye, ev)
-                        stats["solves"] += 1
-                        rl = RecordLinear()
-                        try:
-                            with np.errstate(all="ignore"), rl:
-                                sv = step_solver(P, params, it0, dt, rho)
-                                sv.update_active_set(A)
-                                sv.update_derivs(it0)
-                                res = sv.solve(ite)
-                                gx, gy = res.iterate.x, res.iterate.y
-                        except StepSolverError:
-                            stats["solver_failed"] += 1
-                            if ls == "LU":
-                                bad(f"lu_failed|{ss}", "direct solver failed on a well-conditioned system (cond %.2e)" % cond, at)
+                    for dmode in (("base",) if ei == 0 else ("base", "current")):
+                        # derivatives at the base iterate (Simplified / ActiveSet) or at the evaluation point (Full Newton, 2nd+ step)
+                        Jm = O.implicit_jac(T, R0 if dmode == "base" else Re, rho, dt, A)
+                        Fv = O.implicit_value(T, (xb, y), Re, rho, dt, A)
+                        cond = np.linalg.cond(Jm)
+                        if not np.isfinite(cond) or cond > 1e6:
+                            stats["illcond"] += 1
                             continue
-                        lam = 1.0 / dt
-                        if ls == "LU":
-                            tol = 1e-10 * cond * scale
-                        else:
-                            # bound from the linear system actually handed to the iterative solver and its
-                            # stated stopping rule (GMRES: |r| <= max(1e-8, 1e-5|b|); MINRES: |r| <= 1e-5(|A||x|+|b|))
-                            sysm = rl.systems[-1]
-                            Mi = np.linalg.norm(np.linalg.inv(sysm["mat"]), 2) if sysm["mat"].size else 0.0
-                            rhs_, sol_, _ = sysm["solves"][-1]
-                            if ls == "GMRES":
-                                rres = max(1e-8, 1e-5 * float(np.linalg.norm(rhs_)))
+                        s = np.linalg.solve(Jm, Fv)
+                        xn = np.clip(xe - s[: T.n], T.var_lb, T.var_ub)
+                        yn = ye - s[T.n:]
+                        scale = max(1.0, float(np.max(np.abs(s))), float(np.max(np.abs(xn))), float(np.max(np.abs(yn), initial=0)))
+                        nontriv = A.any() or (m > 0 and not prob.jac_const and Re.cons_violation > 1e-3)
+                        if nontriv:
+                            keys.append(f"{spec['tag']}|{bi}{yi}{ei}{dmode}|{at['active']}|{rho}|{dt}")
+                        for ss, ls in SOLVERS:
+                            params, P, ev = P_of(ss, ls)
+                            it0 = Iterate(P, params, xb, y, ev)
+                            ite = it0 if ei == 0 else Iterate(P, params, xe, ye, ev)
+                            stats["solves"] += 1
+                            rl = RecordLinear()
+                            try:
+                                with np.errstate(all="ignore"), rl:
+                                    sv = step_solver(P, params, it0, dt, rho)
+                                    sv.update_active_set(A)
+                                    sv.update_derivs(it0 if dmode == "base" else ite)
+                                    res = sv.solve(ite)
+                                    gx, gy = res.iterate.x, res.iterate.y
+                            except StepSolverError:
+                                stats["solver_failed"] += 1
+                                if ls == "LU":
+                                    bad(f"lu_failed|{ss}", "direct solver failed on a well-conditioned system (cond %.2e)" % cond, at)
+                                continue
+                            lam = 1.0 / dt
+                            if ls == "LU":
+                                tol = 1e-10 * cond * scale
                             else:
-                                rres = 1e-5 * (float(np.linalg.norm(sysm["mat"], 2)) * float(np.linalg.norm(sol_)) + float(np.linalg.norm(rhs_)))
-                            # a solver that misses its own stopping rule is C17's concern: use the achieved residual
-                            ares = float(np.linalg.norm(sysm["mat"].dot(sol_) - rhs_))
-                            if ares > rres:
-                                stats["iter_missed_tol"] = stats.get("iter_missed_tol", 0) + 1
-                            tol = 2.0 * Mi * max(rres, ares) + 1e-10 * cond * scale
-                        err = max(float(np.max(np.abs(gx - xn))), float(np.max(np.abs(gy - yn), initial=0.0)))
-                        stats["compared"] += 1
-                        if not np.isfinite(err) or err > tol:
-                            bad(f"step|{ss}|{ls}", f"step differs from the dense Newton step by {err:.3e} (tol {tol:.3e}, cond {cond:.2e}): "
-                                f"got x={gx.tolist()} y={gy.tolist()} want x={xn.tolist()} y={yn.tolist()}", at)
+                                # bound from the linear system actually handed to the iterative solver and its
+                                # stated stopping rule (GMRES: |r| <= max(1e-8, 1e-5|b|); MINRES: |r| <= 1e-5(|A||x|+|b|))
+                                sysm = rl.systems[-1]
+                                Mi = np.linalg.norm(np.linalg.inv(sysm["mat"]), 2) if sysm["mat"].size else 0.0
+                                rhs_, sol_, _ = sysm["solves"][-1]
+                                if ls == "GMRES":
+                                    rres = max(1e-8, 1e-5 * float(np.linalg.norm(rhs_)))
+                                else:
+                                    rres = 1e-5 * (float(np.linalg.norm(sysm["mat"], 2)) * float(np.linalg.norm(sol_)) + float(np.linalg.norm(rhs_)))
+                                # a solver that misses its own stopping rule is C17's concern: use the achieved residual
+                                ares = float(np.linalg.norm(sysm["mat"].dot(sol_) - rhs_))
+                                if ares > rres:
+                                    stats["iter_missed_tol"] = stats.get("iter_missed_tol", 0) + 1
+                                tol = 2.0 * Mi * max(rres, ares) + 1e-10 * cond * scale
+                            err = max(float(np.max(np.abs(gx - xn))), float(np.max(np.abs(gy - yn), initial=0.0)))
+                            stats["compared"] += 1
+                            if not np.isfinite(err) or err > tol:
+                                bad(f"step|{ss}|{ls}", f"step differs from the dense Newton step by {err:.3e} (tol {tol:.3e}, cond {cond:.2e}): "
+                                    f"got x={gx.tolist()} y={gy.tolist()} want x={xn.tolist()} y={yn.tolist()}", at)
             # Newton variants: same first step; QP exactness
             R0 = O.RefPoint(T, xb, y)
             firsts = {}
